@@ -38,8 +38,24 @@ def _install_guards(stats: dict) -> None:
     import crosshair.core as core
     import crosshair.core_and_libs  # noqa: F401  (registers all patches)
 
+    # CrossHair replaces `_lru_cache_wrapper.__call__` by a direct call of `__wrapped__`:
+    # memoisation does not exist under CrossHair, which hides cross-call state (the
+    # `date` filter).  For functions defined in /repo the real cache is kept; stdlib
+    # caches stay bypassed (they make iterations non-deterministic otherwise).
     try:
-        core._PATCH_REGISTRATIONS.pop(functools._lru_cache_wrapper.__call__, None)  # type: ignore[attr-defined]
+        _key = functools._lru_cache_wrapper.__call__  # type: ignore[attr-defined]
+        _real_call = _key
+
+        def _lru_call(self, *a, **kw):  # type: ignore[no-untyped-def]
+            if not isinstance(self, functools._lru_cache_wrapper):  # type: ignore[attr-defined]
+                raise TypeError
+            mod = getattr(getattr(self, "__wrapped__", None), "__module__", "") or ""
+            if mod == "liquid2" or mod.startswith("liquid2."):
+                stats["lru_real_calls"] += 1
+                return _real_call(self, *a, **kw)
+            return self.__wrapped__(*a, **kw)
+
+        core._PATCH_REGISTRATIONS[_key] = _lru_call
         stats["lru_patch_removed"] = True
     except Exception:  # pragma: no cover
         stats["lru_patch_removed"] = False
